@@ -460,3 +460,267 @@ Lemma lex_step : forall f cfg lt lb s, ops_ok cfg -> (msr s < f)%nat ->
                     | _ => []
                     end.
 Proof. intros. rewrite lex_unfold by assumption. rewrite (step_fuel (S (msr s)) f) by (assumption || lia). reflexivity. Qed.
+
+(* ================================================================== 5. lookahead and separators *)
+
+(* a state without cached rune: t.last is irrelevant *)
+Lemma lex_nolast : forall cfg lt lb rs l ln, ops_ok cfg ->
+  lex cfg lt lb (mkSt rs false l ln) = lex cfg lt lb (fresh rs ln).
+Proof.
+  intros cfg lt lb rs l ln Ho.
+  rewrite (lex_step (S (length rs))) by (assumption || (unfold msr; cbn; lia)).
+  rewrite (lex_step (S (length rs)) _ _ _ (fresh rs ln)) by (assumption || (unfold msr; cbn; lia)).
+  unfold step. cbv zeta. rewrite next_nolast. reflexivity.
+Qed.
+
+(* Lemma A: the lookahead a scanner does behind a token (next(true), then unread) is invisible to run *)
+Lemma lex_unread_next : forall cfg lt lb s, ops_ok cfg -> s_isLast s = false ->
+  lex cfg lt lb (unread (snd (next (c_comments cfg) true s))) = lex cfg lt lb s.
+Proof.
+  intros cfg lt lb s Ho Hil.
+  destruct (next (c_comments cfg) true s) as [n s1] eqn:E. cbn [snd].
+  pose proof (msr_unread_next _ _ _ _ _ E) as Hu.
+  rewrite (lex_step (S (msr s))) by (assumption || lia).
+  rewrite (lex_step (S (msr s)) _ _ _ s) by (assumption || lia).
+  unfold step. cbv zeta.
+  replace s1 with (snd (next (c_comments cfg) true s)) by (rewrite E; reflexivity).
+  rewrite next_unread_next by assumption. reflexivity.
+Qed.
+
+Lemma lex_eof : forall cfg lt lb ln, ops_ok cfg -> lex cfg lt lb (fresh [] ln) = [].
+Proof. intros. rewrite lex_unfold by assumption. reflexivity. Qed.
+
+Lemma count_lf_cons : forall c s, count_lf (c :: s) = (if c =? 10 then 1 else 0) + count_lf s.
+Proof.
+  intros c s. unfold count_lf. cbn [filter]. rewrite (N.eqb_sym 10 c).
+  destruct (c =? 10); cbn [length]; lia.
+Qed.
+
+Lemma count_lf_app : forall a b, count_lf (a ++ b) = count_lf a + count_lf b.
+Proof.
+  induction a as [|c a IH]; intros b; [reflexivity|]. cbn [app]. rewrite !count_lf_cons, IH. lia.
+Qed.
+
+(* one step on a state with empty cache, in terms of nextf *)
+Lemma lex_fresh_blank : forall cfg lt lb rs ln n rs' ln', ops_ok cfg ->
+  nextf (c_comments cfg) true rs ln = (n, rs', ln') ->
+  (n = 32 \/ n = 13 \/ n = 9) ->
+  lex cfg lt lb (fresh rs ln) = lex cfg lt true (fresh rs' ln').
+Proof.
+  intros cfg lt lb rs ln n rs' ln' Ho Hn Hb. rewrite lex_unfold by assumption.
+  unfold step. cbv zeta. unfold fresh at 1. rewrite next_fresh, Hn.
+  destruct Hb as [Hb|[Hb|Hb]]; subst n; cbn; apply lex_nolast; assumption.
+Qed.
+
+Lemma lex_fresh_lf : forall cfg lt lb rs ln rs' ln', ops_ok cfg ->
+  nextf (c_comments cfg) true rs ln = (10, rs', ln') ->
+  lex cfg lt lb (fresh rs ln) = lex cfg lt true (fresh rs' (ln' + 1)).
+Proof.
+  intros cfg lt lb rs ln rs' ln' Ho Hn. rewrite lex_unfold by assumption.
+  unfold step. cbv zeta. unfold fresh at 1. rewrite next_fresh, Hn. cbn. apply lex_nolast; assumption.
+Qed.
+
+Lemma lex_fresh_eof : forall cfg lt lb rs ln rs' ln', ops_ok cfg ->
+  nextf (c_comments cfg) true rs ln = (0, rs', ln') -> lex cfg lt lb (fresh rs ln) = [].
+Proof.
+  intros cfg lt lb rs ln rs' ln' Ho Hn. rewrite lex_unfold by assumption.
+  unfold step. cbv zeta. unfold fresh at 1. rewrite next_fresh, Hn. reflexivity.
+Qed.
+
+Lemma nextf_plain : forall cm sk c r ln, c <> 47 -> nextf cm sk (c :: r) ln = (al sk c, r, ln).
+Proof.
+  intros cm sk c r ln H. unfold nextf. destruct (N.eqb_spec c 47); [contradiction|].
+  rewrite !andb_false_r. reflexivity.
+Qed.
+
+Lemma skip_block_body : forall b r ln, no_star_slash (b ++ [42]) = true ->
+  skip_block (b ++ 42 :: 47 :: r) ln = (match r with [] => None | _ => Some r end, ln + count_lf b).
+Proof.
+  induction b as [|c b IH]; intros r ln H.
+  - cbn. rewrite N.add_0_r. destruct r; reflexivity.
+  - cbn [app skip_block]. rewrite count_lf_cons.
+    assert (Hns : no_star_slash (b ++ [42]) = true).
+    { cbn [app no_star_slash] in H. destruct (b ++ [42]) eqn:Eb; [destruct b; discriminate|].
+      apply andb_true_iff in H. tauto. }
+    destruct (N.eqb_spec c 42) as [->|Hc].
+    + cbn [N.eqb Pos.eqb]. destruct b as [|d b'].
+      * cbn [app]. cbn. rewrite N.add_0_r. specialize (IH r ln Hns). cbn in IH. rewrite N.add_0_r in IH. exact IH.
+      * cbn [app]. cbn [app no_star_slash] in H. rewrite N.eqb_refl in H. cbn [andb] in H.
+        destruct (d =? 47) eqn:Ed; [discriminate|]. cbn [negb andb] in H.
+        specialize (IH r ln Hns). cbn [app] in IH. rewrite IH. cbn. reflexivity.
+    + destruct (b ++ 42 :: 47 :: r) eqn:Eb; [destruct b; discriminate|]. rewrite <- Eb.
+      rewrite IH by assumption. f_equal. destruct (c =? 10); lia.
+Qed.
+
+Lemma skip_block_open : forall b ln, no_star_slash b = true -> fst (skip_block b ln) = None.
+Proof.
+  induction b as [|c b IH]; intros ln H; [reflexivity|]. cbn [skip_block].
+  destruct (c =? 42) eqn:Ec.
+  - destruct b as [|d b']; [reflexivity|]. cbn [no_star_slash] in H. rewrite Ec in H. cbn [andb] in H.
+    destruct (d =? 47); [discriminate|]. cbn [negb andb] in H. apply IH. exact H.
+  - destruct b as [|d b']; [reflexivity|]. apply IH. cbn [no_star_slash] in H.
+    apply andb_true_iff in H. tauto.
+Qed.
+
+Definition no_eol (b : list N) : bool := forallb (fun c => negb ((c =? 10) || (c =? 13))) b.
+
+Lemma skip_line_body : forall b t r, no_eol b = true -> (t = 10 \/ t = 13) ->
+  skip_line (b ++ t :: r) = Some (t, r).
+Proof.
+  induction b as [|c b IH]; intros t r H Ht.
+  - cbn. destruct Ht as [Ht|Ht]; subst t; reflexivity.
+  - cbn in *. apply andb_true_iff in H. destruct H as [H1 H2].
+    destruct ((c =? 10) || (c =? 13)); [discriminate|]. apply IH; assumption.
+Qed.
+
+Lemma skip_line_open : forall b, no_eol b = true -> skip_line b = None.
+Proof.
+  induction b as [|c b IH]; intros H; [reflexivity|]. cbn in *. apply andb_true_iff in H. destruct H as [H1 H2].
+  destruct ((c =? 10) || (c =? 13)); [discriminate|]. apply IH; assumption.
+Qed.
+
+Lemma lex_line_eq : forall cfg lt lb r a b, a = b -> lex cfg lt lb (fresh r a) = lex cfg lt lb (fresh r b).
+Proof. intros; subst; reflexivity. Qed.
+
+Ltac solve_side :=
+  first [assumption | (rewrite nextf_plain by discriminate; reflexivity) | (left; reflexivity)
+        | (right; left; reflexivity) | (right; right; reflexivity)].
+
+(* a separator in front of the unread input is skipped; it sets lastWasBlank and advances the line by its LFs *)
+Lemma lex_sep : forall cfg lt lb x r ln, ops_ok cfg -> sep_ok (c_comments cfg) x = true -> sep_final x = false ->
+  lex cfg lt lb (fresh (sep_text x ++ r) ln) = lex cfg lt true (fresh r (ln + count_lf (sep_text x))).
+Proof.
+  intros cfg lt lb x r ln Ho Hok Hfin.
+  destruct x as [| | | |b t|b|b|b]; cbn [sep_text app]; try discriminate.
+  - rewrite (lex_fresh_blank cfg lt lb _ ln 32 r ln) by solve_side. apply lex_line_eq; cbn; lia.
+  - rewrite (lex_fresh_blank cfg lt lb _ ln 9 r ln) by solve_side. apply lex_line_eq; cbn; lia.
+  - rewrite (lex_fresh_blank cfg lt lb _ ln 13 r ln) by solve_side. apply lex_line_eq; cbn; lia.
+  - rewrite (lex_fresh_lf cfg lt lb _ ln r ln) by solve_side. apply lex_line_eq; cbn; lia.
+  - (* line comment *)
+    cbn [sep_ok] in Hok. apply andb_true_iff in Hok. destruct Hok as [Hok Ht]. apply andb_true_iff in Hok. destruct Hok as [Hcm Hb].
+    assert (Ht' : t = 10 \/ t = 13) by (apply orb_true_iff in Ht; destruct Ht as [Ht|Ht]; apply N.eqb_eq in Ht; auto).
+    assert (Hnf : nextf (c_comments cfg) true (47 :: 47 :: b ++ [t] ++ r) ln = (t, r, ln)).
+    { unfold nextf. rewrite Hcm. cbn [andb N.eqb Pos.eqb]. cbn [app]. rewrite skip_line_body by assumption.
+      destruct Ht' as [Ht'|Ht']; subst t; reflexivity. }
+    rewrite <- app_assoc. rewrite !count_lf_cons. cbn [N.eqb]. rewrite count_lf_app.
+    assert (Hcb : count_lf b = 0).
+    { clear - Hb. induction b as [|c b IH]; [reflexivity|]. cbn in Hb. apply andb_true_iff in Hb. destruct Hb as [H1 H2].
+      rewrite count_lf_cons, IH by assumption. destruct (c =? 10); [discriminate|reflexivity]. }
+    rewrite Hcb. destruct Ht' as [Ht'|Ht']; subst t.
+    + rewrite (lex_fresh_lf cfg lt lb _ ln r ln) by assumption. apply lex_line_eq; cbn; lia.
+    + rewrite (lex_fresh_blank cfg lt lb _ ln 13 r ln) by solve_side. apply lex_line_eq; cbn; lia.
+  - (* block comment *)
+    cbn [sep_ok] in Hok. apply andb_true_iff in Hok. destruct Hok as [Hcm Hb].
+    rewrite <- app_assoc. cbn [app].
+    assert (Hcl : count_lf (47 :: 42 :: b ++ [42; 47]) = count_lf b).
+    { rewrite !count_lf_cons, count_lf_app. cbn. lia. }
+    replace (count_lf (47 :: 42 :: b ++ 42 :: 47 :: [])) with (count_lf b) in * by (symmetry; exact Hcl).
+    destruct r as [|e r'].
+    + rewrite lex_eof by assumption.
+      apply (lex_fresh_eof cfg lt lb _ ln [] (ln + count_lf b)); [assumption|].
+      unfold nextf. rewrite Hcm. cbn [andb N.eqb Pos.eqb]. rewrite skip_block_body by assumption. reflexivity.
+    + apply (lex_fresh_blank cfg lt lb _ ln 32); auto.
+      unfold nextf. rewrite Hcm. cbn [andb N.eqb Pos.eqb]. rewrite skip_block_body by assumption. reflexivity.
+Qed.
+
+Definition is_nil {A} (l : list A) : bool := match l with [] => true | _ => false end.
+Definition seps_ok (cm : bool) (l : list sep) : bool := forallb (fun x => sep_ok cm x && negb (sep_final x)) l.
+
+Lemma lex_seps : forall l cfg lt lb r ln, ops_ok cfg -> seps_ok (c_comments cfg) l = true ->
+  lex cfg lt lb (fresh (seps_text l ++ r) ln) = lex cfg lt (lb || negb (is_nil l)) (fresh r (ln + count_lf (seps_text l))).
+Proof.
+  induction l as [|x l IH]; intros cfg lt lb r ln Ho H.
+  - cbn. rewrite orb_false_r. apply lex_line_eq. cbn. lia.
+  - cbn [seps_ok forallb] in H. apply andb_true_iff in H. destruct H as [Hx Hl]. apply andb_true_iff in Hx. destruct Hx as [Hx Hf].
+    apply negb_true_iff in Hf.
+    unfold seps_text. cbn [flat_map]. fold (seps_text l). rewrite <- app_assoc.
+    rewrite lex_sep by assumption. rewrite IH by assumption. cbn [is_nil negb]. rewrite orb_true_r. cbn [orb].
+    apply lex_line_eq. rewrite count_lf_app. lia.
+Qed.
+
+Lemma lex_final : forall cfg lt lb x ln, ops_ok cfg -> sep_ok (c_comments cfg) x = true -> sep_final x = true ->
+  lex cfg lt lb (fresh (sep_text x) ln) = [].
+Proof.
+  intros cfg lt lb x ln Ho Hok Hfin. destruct x as [| | | |b t|b|b|b]; try discriminate; cbn [sep_text sep_ok] in *;
+    apply andb_true_iff in Hok; destruct Hok as [Hcm Hb].
+  - apply (lex_fresh_eof cfg lt lb _ ln [] ln); [assumption|]. unfold nextf. rewrite Hcm. cbn [andb N.eqb Pos.eqb].
+    rewrite skip_line_open by assumption. reflexivity.
+  - destruct (skip_block b ln) as [o l2] eqn:E. pose proof (skip_block_open b ln Hb) as Hn. rewrite E in Hn. cbn in Hn. subst o.
+    apply (lex_fresh_eof cfg lt lb _ ln [] l2); [assumption|]. unfold nextf. rewrite Hcm. cbn [andb N.eqb Pos.eqb].
+    rewrite E. reflexivity.
+Qed.
+
+(* ================================================================== 6. layouts *)
+
+(* [w] is the text of a lexeme denoting [toks]: whenever it is followed by an input r satisfying C, the scanner
+   sends exactly toks (on the line w starts on) and continues in front of r *)
+Definition lexeme_at (cfg : tcfg) (lt : ttype) (lb : bool) (w : list N) (toks : list ptok) (lt' : ttype)
+  (C : list N -> Prop) : Prop :=
+  forall r ln, C r ->
+    lex cfg lt lb (fresh (w ++ r) ln) = map (at_line ln) toks ++ lex cfg lt' false (fresh r ln).
+
+(* well-formed layout, starting with lastTokenType = lt and lastWasBlank = lb *)
+Inductive wf_layout (cfg : tcfg) : ttype -> bool -> list item -> Prop :=
+| wf_nil : forall lt lb, wf_layout cfg lt lb []
+| wf_sep : forall lt lb l items, seps_ok (c_comments cfg) l = true ->
+    wf_layout cfg lt (lb || negb (is_nil l)) items -> wf_layout cfg lt lb (ISep l :: items)
+| wf_sep_final : forall lt lb l x, seps_ok (c_comments cfg) l = true ->
+    sep_ok (c_comments cfg) x = true -> sep_final x = true -> wf_layout cfg lt lb [ISep (l ++ [x])]
+| wf_lex : forall lt lb w toks lt' C items, lexeme_at cfg lt lb w toks lt' C -> count_lf w = 0 ->
+    C (layout_text items) -> wf_layout cfg lt' false items -> wf_layout cfg lt lb (ILex w toks :: items).
+
+Theorem layout_correct : forall cfg lt lb items, ops_ok cfg -> wf_layout cfg lt lb items ->
+  forall ln, lex cfg lt lb (fresh (layout_text items) ln) = expect items ln.
+Proof.
+  intros cfg lt lb items Ho H. induction H as [lt lb|lt lb l items Hs Hw IH|lt lb l x Hs Hx Hf|lt lb w toks lt' C items Hl Hc HC Hw IH]; intros ln.
+  - change (lex cfg lt lb (fresh [] ln) = []). apply lex_eof. assumption.
+  - unfold layout_text. cbn [flat_map item_text expect]. fold (layout_text items).
+    rewrite lex_seps by assumption. apply IH.
+  - unfold layout_text. cbn [flat_map item_text expect app]. rewrite app_nil_r.
+    unfold seps_text. rewrite flat_map_app. fold (seps_text l). cbn [flat_map]. rewrite app_nil_r.
+    rewrite lex_seps by assumption. apply lex_final; assumption.
+  - unfold layout_text. cbn [flat_map item_text expect]. fold (layout_text items).
+    rewrite (Hl _ ln HC). rewrite IH. rewrite Hc, N.add_0_r. reflexivity.
+Qed.
+
+Definition lexeme_tokens (l : list item) : list ptok :=
+  flat_map (fun i => match i with ILex _ toks => toks | ISep _ => [] end) l.
+
+Lemma strip_expect : forall items ln, map strip_line (expect items ln) = lexeme_tokens items.
+Proof.
+  induction items as [|i items IH]; intros ln; [reflexivity|]. cbn [expect lexeme_tokens flat_map].
+  rewrite map_app, IH. f_equal. destruct i as [l|w toks]; [reflexivity|].
+  rewrite map_map. rewrite <- (map_id toks) at 2. apply map_ext. intros [ty img]. reflexivity.
+Qed.
+
+Lemma expect_app : forall pre post ln,
+  expect (pre ++ post) ln = expect pre ln ++ expect post (ln + count_lf (layout_text pre)).
+Proof.
+  induction pre as [|i pre IH]; intros post ln.
+  - cbn. rewrite N.add_0_r. reflexivity.
+  - cbn [app expect]. rewrite IH. rewrite <- app_assoc. f_equal. f_equal. f_equal.
+    unfold layout_text. cbn [flat_map]. rewrite count_lf_app. lia.
+Qed.
+
+(* layout invariance: two well-formed layouts of the same lexemes give the same tokens (lines aside) *)
+Theorem layout_invariance_lemma : forall cfg items items', ops_ok cfg ->
+  wf_layout cfg tInvalid false items -> wf_layout cfg tInvalid false items' ->
+  lexeme_tokens items = lexeme_tokens items' ->
+  map strip_line (tokenize cfg (layout_text items)) = map strip_line (tokenize cfg (layout_text items')).
+Proof.
+  intros cfg items items' Ho H1 H2 He. rewrite !tokenize_lex by assumption.
+  rewrite (layout_correct cfg _ _ items Ho H1), (layout_correct cfg _ _ items' Ho H2).
+  rewrite !strip_expect. exact He.
+Qed.
+
+(* the line of a token is 1 + the number of LF in the text before its lexeme (inside comments included) *)
+Theorem line_is_start_line_lemma : forall cfg pre w toks post, ops_ok cfg ->
+  wf_layout cfg tInvalid false (pre ++ ILex w toks :: post) ->
+  exists before after,
+    tokenize cfg (layout_text (pre ++ ILex w toks :: post)) =
+    before ++ map (at_line (1 + count_lf (layout_text pre))) toks ++ after.
+Proof.
+  intros cfg pre w toks post Ho H. rewrite tokenize_lex by assumption.
+  rewrite (layout_correct cfg _ _ _ Ho H). rewrite expect_app. cbn [expect].
+  eexists. eexists. reflexivity.
+Qed.
